@@ -16,7 +16,7 @@ EXHAUSTIVE = {'quick': False, 'thorough': True}
 NAMES = ['a', 'b', 'c']
 FILES = ['f1', 'f2', 'f3']
 VALID = ['A1', 'B2 {{v}}', '  {{> b}}\n', 'C3{{#if v}}y{{/if}}', 'B2 {{v}}\nL2\n', 'A1\n  {{> b}}\nZ']
-INVALID = ['{{#if}', '{{/x}}']
+INVALID = ['{{#if}', '{{/x}}', '{{#if v}']
 DATA = {'v': 'V'}
 
 class Abs:
@@ -116,6 +116,10 @@ def gen_cases(rng, tier, scale):
     SK_PLAIN = [[('pi', 1), ('regs', 'b', 'B2 {{v}}\nL2\n'), ('regp', 'a', 'A1\n  {{> b}}\nZ'), ('pi', 0), ('regp', 'c', 'A1\n  {{> b}}\nZ')],
                 [('regp', 'a', 'A1'), ('regp', 'a', '{{#if}'), ('pi', 1), ('regp', 'b', 'B2 {{v}}\nL2\n'), ('regs', 'c', 'C3\n\t{{> b}}\n')],
                 [('dev', 1), ('fw', 'f1', 'A1{{#if v}}{{> b v=false}}{{/if}}'), ('regf', 'a', 'f1'), ('regs', 'b', 'C3[{{> a}}]'), ('fw', 'f1', 'B2{{#if v}}{{> b v=false}}{{/if}}')]]
+    # rewrites that keep the file's LENGTH (the harness keeps its modification time on every overwrite): valid -> valid -> invalid ->
+    # valid, top level and as a partial, also seen through a clone made before the rewrite
+    SK_PLAIN += [[('dev', 1), ('fw', 'f1', 'A1 {{v}}'), ('regf', 'a', 'f1'), ('fw', 'f1', 'B2 {{v}}'), ('fw', 'f1', '{{#if v}'), ('fw', 'f1', 'C3 {{v}}')],
+                 [('dev', 1), ('fw', 'f2', 'A1 {{v}}'), ('regf', 'b', 'f2'), ('regs', 'c', 'C3[{{> b}}]'), ('fw', 'f2', 'B2 {{v}}'), ('clone',), ('sel', 1), ('fw', 'f2', 'C3 {{v}}'), ('sel', 0)]]
     for k, sk in enumerate(SK + SK_PLAIN):           # every skeleton once as written, whatever the seed
         cases.append({'line': to_line(f'sk{k}', list(sk)), 'ops': list(sk), 'kind': 'history', 'tags': ['scenario-plain']})
     m = (120 if tier == 'quick' else 2000) * scale
